@@ -122,9 +122,9 @@ def r_module_state(ctx, model):
     ok = False
     for st in ast.walk(f):
         if isinstance(st, ast.Assign) and isinstance(st.value, ast.Call) and (dotted_name(st.value.func) or "") in ("copy.copy", "copy.deepcopy", "dict") \
-                and st.value.args and src(st.value.args[0]) == "DEFAULT_SETTINGS":
+                and st.value.args and src(st.value.args[0]).split(".")[-1] == "DEFAULT_SETTINGS":
             ok = True
-    uses = [n for n in ast.walk(f) if isinstance(n, ast.Name) and n.id == "DEFAULT_SETTINGS"]
+    uses = [n for n in ast.walk(f) if (isinstance(n, ast.Name) and n.id == "DEFAULT_SETTINGS") or (isinstance(n, ast.Attribute) and n.attr == "DEFAULT_SETTINGS")]
     ctx.check(ok and len(uses) == 1, "qha DEFAULT_SETTINGS is copied before the user settings are merged in", model.where(ref, f),
               expected="user_settings = copy.copy(DEFAULT_SETTINGS); user_settings.update(settings)", found=f"{len(uses)} use(s), copied: {ok}",
               explanation="the library's default-settings dictionary is updated in place: settings of one calculation leak into the next",
